@@ -161,6 +161,73 @@ pub fn vecdeque_remove_stub<T, A: std::alloc::Allocator>(v: &mut std::collection
     out
 }
 
+/// `VecDeque::swap_remove_back`: std swaps with `ptr::swap` (byte-wise, destroys pointer
+/// provenance). Typed re-implementation: the element at `index` is replaced by the last one.
+/// Stubbed alongside `remove` so that a change of the removal API in the code under test stays
+/// decidable instead of running out of memory.
+pub fn vecdeque_swap_remove_back_stub<T, A: std::alloc::Allocator>(v: &mut std::collections::VecDeque<T, A>, index: usize) -> Option<T> {
+    let len = v.len();
+    if index >= len {
+        return None;
+    }
+    let last = match v.pop_back() {
+        Some(x) => x,
+        None => unreachable!(),
+    };
+    if index == len - 1 {
+        return Some(last);
+    }
+    let s = v.make_contiguous();
+    let mut out: Option<T> = None;
+    let mut e = Some(last);
+    unsafe {
+        let p = s.as_mut_ptr();
+        let mut j = 0;
+        while j + 1 < len {
+            if j == index {
+                out = Some(std::ptr::read(p.add(j)));
+                if let Some(x) = e.take() {
+                    std::ptr::write(p.add(j), x);
+                }
+            }
+            j += 1;
+        }
+    }
+    std::mem::forget(e);
+    out
+}
+pub fn vecdeque_swap_remove_front_stub<T, A: std::alloc::Allocator>(v: &mut std::collections::VecDeque<T, A>, index: usize) -> Option<T> {
+    let len = v.len();
+    if index >= len {
+        return None;
+    }
+    let first = match v.pop_front() {
+        Some(x) => x,
+        None => unreachable!(),
+    };
+    if index == 0 {
+        return Some(first);
+    }
+    let s = v.make_contiguous();
+    let mut out: Option<T> = None;
+    let mut e = Some(first);
+    unsafe {
+        let p = s.as_mut_ptr();
+        let mut j = 0;
+        while j + 1 < len {
+            if j + 1 == index {
+                out = Some(std::ptr::read(p.add(j)));
+                if let Some(x) = e.take() {
+                    std::ptr::write(p.add(j), x);
+                }
+            }
+            j += 1;
+        }
+    }
+    std::mem::forget(e);
+    out
+}
+
 /// Path stubs for the filesystem harnesses (DESIGN.md 2.3). std compares and splits paths by
 /// iterating `Components` backwards byte by byte; on heap-stored `PathBuf`s the symbolic executor
 /// unwinds those parser loops at every comparison (measured: one create+write+read did not finish in
